@@ -238,14 +238,14 @@ def gen_malformed(r):
     return make_history(cfg, ledger, ops, "malformed")
 
 
-def gen_exhaustive(length, naccts=2, nonces=(0, 1, 2)):
+def gen_exhaustive(length, naccts=2, nonces=(0, 1, 2), commits=(0, 1)):
     """all operation sequences of the given length over a small alphabet (thorough tier)"""
     import itertools
     alpha = []
     for a in range(naccts):
         for n in nonces:
             alpha.append(("p", a, n))
-    alpha += [("g",), ("c", 0), ("c", 1), ("d",), ("r",)]
+    alpha += [("g",)] + [("c", a) for a in commits] + [("d",), ("r",)]
     for seq in itertools.product(alpha, repeat=length):
         yield seq
 
@@ -478,8 +478,11 @@ def run(ctx, pid):
     hists += [gen_malformed(r) for _ in range(n_mal)]
     if not ctx.quick:
         hists += [gen_structured(r, big=True, with_ledger=(i % 6 == 5)) for i in range(1500)]
-        for L, batch, timed in ((4, 2, 0), (5, 2, 0), (4, 1, 1)):
-            for seq in gen_exhaustive(L):
+        # exhaustive small scope: every sequence of length 4 over 11 symbols (2 accounts x nonces 0..2, generate,
+        # commit per account, one generate+commit round, age rule), untimed batch 2 and timed batch 1; every
+        # sequence of length 5 over 8 symbols (nonces 0..1, one commit symbol)
+        for L, batch, timed, nonces, commits in ((4, 2, 0, (0, 1, 2), (0, 1)), (4, 1, 1, (0, 1, 2), (0, 1)), (5, 2, 0, (0, 1), (0,))):
+            for seq in gen_exhaustive(L, nonces=nonces, commits=commits):
                 hists.append(concretise_small(seq, batch, timed))
     dist = {}
     outs, err = run_impl(exe, hists)
@@ -487,9 +490,10 @@ def run(ctx, pid):
         ctx.broken("driver:mempool", err)
         return ctx.finish(rule="-")
     verdicts = []
-    shard = 250 if ctx.quick else 800
+    shard = 250 if ctx.quick else 2000
     for i in range(0, len(hists), shard):
-        vs = judge(ctx, pid, hists[i:i + shard], outs[i:i + shard], "%s_cases_%d" % (pid, i // shard), cfg_term, excused)
+        vs = judge(ctx, pid, hists[i:i + shard], outs[i:i + shard], "%s_cases_%d" % (pid, i // shard), cfg_term, excused,
+                   jobs=6 if ctx.quick else 8)
         if vs is None:
             return ctx.finish(rule="-")
         verdicts += vs
